@@ -244,6 +244,26 @@ def translate(repo):
                f"  let v_mask := {m} in\n  mkpopo (map2 (fun (b : bool) (gn : G * G) => if b then snd gn else fst gn) v_mask (combine (pgo p) new))\n"
                "         (map2 (fun (b : bool) (f : option Z) => if b then None else f) v_mask (pfo p)).\n")
     fns.append(f"{POP}:Population.update_genome")
+    # evaluate: fitnesses[M] = [problem.evaluate(genome, ...) for genome in genomes[M]], M = the rows without a fitness (NaN)
+    fn = find_def(pmod, "evaluate", "Population")
+    inl = Inliner(fn, POP)
+    sets = [s_ for s_ in fn.body if isinstance(s_, ast.Assign) and len(s_.targets) == 1 and isinstance(s_.targets[0], ast.Subscript)]
+    others = [s_ for s_ in fn.body if s_ not in sets and not (isinstance(s_, ast.Expr) and isinstance(s_.value, ast.Constant))
+              and not (isinstance(s_, ast.Assign) and len(s_.targets) == 1 and isinstance(s_.targets[0], ast.Name))]
+    ok = not others and len(sets) == 1 and dotted(sets[0].targets[0].value) == "self.fitnesses"
+    if ok:
+        from .lazy import canon
+        m_ = ast.unparse(inl.inline(sets[0].targets[0].slice, sets[0]))
+        rhs = ast.unparse(canon(inl.inline(sets[0].value, sets[0])))
+        ok = m_ == "np.isnan(self.fitnesses)" and rhs == f"[self.problem.evaluate(_c0, *args, **kwargs) for _c0 in self.genomes[{m_}]]"
+    if not ok:
+        raise Unsupported(f"{POP}:{fn.lineno}: Population.evaluate is not `fitnesses[nan rows] = [problem.evaluate(genome) for genome in genomes[nan rows]]`")
+    out.append("(* only the rows without a fitness are sent to the problem, in row order; the others keep their value *)\n"
+               "Definition gen_evaluate (f : G -> Z) (p : popo) : popo :=\n"
+               "  mkpopo (pgo p) (map2 (fun (g : G) (fo : option Z) => match fo with None => Some (f g) | Some v => Some v end) (pgo p) (pfo p)).\n"
+               "Definition gen_evaluate_requests (p : popo) : list G :=\n"
+               "  map fst (filter (fun r => match snd r with None => true | Some _ => false end) (combine (pgo p) (pfo p))).\n")
+    fns.append(f"{POP}:Population.evaluate")
     out.append("End Pop.\nArguments mkpop {G}. Arguments pg {G}. Arguments pf {G}. Arguments mkpopo {G}. Arguments pgo {G}. Arguments pfo {G}.\n")
     out.append("Section Engines.\nContext {G : Type} (geq : G -> G -> bool) (gdef : G).\n")
 
@@ -328,6 +348,57 @@ def translate(repo):
         c_ = [n_ for n_ in smod.body if isinstance(n_, ast.ClassDef) and n_.name == cls]
         if not c_ or [dotted(b_) for b_ in c_[0].bases] != ["BaseSEA"] or any(isinstance(n_, ast.FunctionDef) and n_.name in ("run", "select_new_population") for n_ in c_[0].body):
             raise Unsupported(f"{SEA}: {cls} is not a BaseSEA that inherits run() and select_new_population()")
+
+    # the mutation / crossover operators of the SEA family: copy, update_genome(new genomes), [evaluate], return the copy
+    def op_flow(cls):
+        fn = find_def(smod, "__call__", cls)
+        an = [x.arg for x in fn.args.args]
+        if len(an) != 2:
+            raise Unsupported(f"{SEA}:{fn.lineno}: {cls}.__call__ signature")
+        copies = [s_ for s_ in fn.body if isinstance(s_, ast.Assign) and isinstance(s_.targets[0], ast.Name) and ast.unparse(s_.value) == f"{an[1]}.copy()"]
+        ret = [s_ for s_ in fn.body if isinstance(s_, ast.Return)]
+        if len(copies) != 1 or len(ret) != 1 or fn.body[-1] is not ret[0] or not isinstance(ret[0].value, ast.Name) or ret[0].value.id != copies[0].targets[0].id:
+            raise Unsupported(f"{SEA}:{fn.lineno}: {cls}.__call__ does not work on one copy of its argument and return that copy")
+        cn = copies[0].targets[0].id
+        # every statement that calls a method of the copy or stores into it, in order, with the condition it is under
+        acts = []
+
+        def walk(stmts, cond):
+            for s_ in stmts:
+                if isinstance(s_, ast.If):
+                    if any(isinstance(n_, ast.Name) and n_.id == cn for n_ in ast.walk(s_.test)):
+                        raise Unsupported(f"{SEA}:{s_.lineno}: {cls}.__call__: a test on the copy")
+                    walk(s_.body, cond + [ast.unparse(s_.test)])
+                    walk(s_.orelse, cond + ["not " + ast.unparse(s_.test)])
+                    continue
+                if isinstance(s_, (ast.For, ast.While)):
+                    for n_ in ast.walk(s_):
+                        if isinstance(n_, ast.Call) and isinstance(n_.func, ast.Attribute) and isinstance(n_.func.value, ast.Name) and n_.func.value.id == cn:
+                            raise Unsupported(f"{SEA}:{s_.lineno}: {cls}.__call__: a method of the copy is called in a loop")
+                        if isinstance(n_, (ast.Assign, ast.AugAssign)):
+                            for t_ in (n_.targets if isinstance(n_, ast.Assign) else [n_.target]):
+                                if any(isinstance(x, ast.Name) and x.id == cn for x in ast.walk(t_)):
+                                    raise Unsupported(f"{SEA}:{s_.lineno}: {cls}.__call__: the copy is stored into in a loop")
+                    continue
+                for n_ in ast.walk(s_):
+                    if isinstance(n_, ast.Call) and isinstance(n_.func, ast.Attribute) and isinstance(n_.func.value, ast.Name) and n_.func.value.id == cn:
+                        acts.append((n_.func.attr, cond, n_))
+                    if isinstance(n_, (ast.Assign, ast.AugAssign)):
+                        for t_ in (n_.targets if isinstance(n_, ast.Assign) else [n_.target]):
+                            if not isinstance(t_, ast.Name) and any(isinstance(x, ast.Name) and x.id == cn for x in ast.walk(t_)):
+                                raise Unsupported(f"{SEA}:{s_.lineno}: {cls}.__call__: the copy is stored into directly")
+        walk(fn.body, [])
+        acts = [a_ for a_ in acts if a_[0] != "copy"]
+        names = [a_[0] for a_ in acts]
+        if names == ["update_genome", "evaluate"] and not acts[0][1] and len(acts[0][2].args) == 1 and not acts[1][2].args and not acts[1][2].keywords:
+            if not acts[1][1]:
+                return "gen_evaluate f (gen_update_genome geq p new)"
+            if acts[1][1] == ["self.evaluate_fitness"]:
+                return "if evaluate_fitness then gen_evaluate f (gen_update_genome geq p new) else gen_update_genome geq p new"
+        raise Unsupported(f"{SEA}:{fn.lineno}: {cls}.__call__ is not copy; update_genome(new genomes); evaluate() [if self.evaluate_fitness]; return the copy — it does {[(a_[0], a_[1]) for a_ in acts]}")
+    for cls in ("GaussianMutation", "UniformMutation", "ArithmeticCrossover"):
+        out.append(f"Definition gen_{cls}_call (f : G -> Z) (evaluate_fitness : bool) (p : popo (G:=G)) (new : list G) : popo (G:=G) :=\n  {op_flow(cls)}.\n")
+        fns.append(f"{SEA}:{cls}.__call__[flow]")
 
     # DE.run / SHADE.run: what is returned, in terms of the parents and the evaluated trial population
     dmod = ast.parse(open(f"{repo}/{DE}").read())
